@@ -153,6 +153,15 @@ const EDGE: [Option<i64>; 11] = [
 /// to name the culprit after a worker died.
 pub fn run_one(args: &Args) {
     let id: u64 = args.kv.get("index").and_then(|v| v.parse().ok()).unwrap_or(0);
+    if id >= 30_000_000_000 {
+        println!("{}", json!({"expression": "<the growth monitor's sweep over self-similar families>", "family": "growth-monitor", "depth_metric": 40, "bytes": 0}));
+        if args.kv.get("run").map_or(false, |v| v == "1") {
+            let mut rep = Report::new("C05");
+            growth_monitor(&mut rep);
+            println!("RETURNED violations={}", rep.violations_total);
+        }
+        return;
+    }
     let (expr, family, doc): (String, &str, Option<Value>) = if id >= 20_000_000_000 {
         let fi = (id - 20_000_000_000 - 1) as usize;
         (format!("{}({})", refimpl::eval::BUILTIN_NAMES[fi / PATS.len()], PATS[fi % PATS.len()]), "builtin-on-hostile-doc", None)
@@ -266,6 +275,125 @@ fn touch_case_clock() {
     });
 }
 
+/// Self-similar expression families whose text grows linearly with the nesting level and
+/// whose evaluation on a one-element document therefore has to grow linearly as well.
+fn growth_family(name: &str, d: usize) -> Option<String> {
+    let wrap: &dyn Fn(&str, usize) -> String = &|inner, level| match name {
+        "max_by-in-key" => format!("max_by(to_array(@), &{})", inner),
+        "min_by-in-key" => format!("min_by(to_array(@), &{})", inner),
+        "sort_by-in-key" => format!("sort_by(to_array(@), &{})[0]", inner),
+        "map-in-map" => format!("map(&{}, to_array(@))[0]", inner),
+        "by-mixed" => match level % 4 {
+            0 => format!("max_by(to_array(@), &{})", inner),
+            1 => format!("sort_by(to_array(@), &{})[0]", inner),
+            2 => format!("min_by(to_array(@), &{})", inner),
+            _ => format!("map(&{}, to_array(@))[0]", inner),
+        },
+        "filter-in-filter" => format!("to_array(@)[?{}] | [0]", inner),
+        "not_null-chain" => format!("not_null({}, @)", inner),
+        "projection-nest" => {
+            if inner == "@" {
+                "to_array(@)[*].abs(@) | [0]".to_string()
+            } else {
+                format!("to_array(@)[*].[{}] | [0] | [0]", inner)
+            }
+        }
+        "hash-nest" => format!("{{a: {}}}.a", inner),
+        "list-nest" => format!("[{}][0]", inner),
+        "and-or" => format!("({}) && @ || @", inner),
+        "cmp-nest" => format!("(({}) == @) && @", inner),
+        _ => String::new(),
+    };
+    let mut e = "@".to_string();
+    for level in 0..d {
+        e = wrap(&e, level);
+        if e.is_empty() {
+            return None;
+        }
+    }
+    Some(e)
+}
+
+const GROWTH_FAMILIES: [&str; 12] = [
+    "max_by-in-key", "min_by-in-key", "sort_by-in-key", "map-in-map", "by-mixed", "filter-in-filter", "not_null-chain", "projection-nest", "hash-nest", "list-nest", "and-or", "cmp-nest",
+];
+
+/// Bounded time, decided on logical steps instead of the clock: the interpreter's and the
+/// parser's step counters (hooks) must grow linearly along a self-similar family. The sweep
+/// stops at the first level that exceeds the bound, so a doubling-per-level defect is
+/// reported after a few thousand steps instead of hanging the run.
+fn growth_monitor(rep: &mut Report) {
+    let doc = rcvar_of(&json!(7));
+    let mut check = |rep: &mut Report, fam: &str, what: &str, series: &[(usize, u64)], d: usize, steps: u64, text: &str| -> bool {
+        if series.len() < 2 {
+            return true;
+        }
+        let (d1, s1) = series[0];
+        let (d2, s2) = series[1];
+        let inc = (s2.saturating_sub(s1) / (d2 - d1) as u64).max(1);
+        let bound = s1 + 8 * inc * d as u64 + 64;
+        if steps > bound {
+            rep.violation(
+                &format!("C05/{}-steps-grow-faster-than-the-expression/{}", what, fam),
+                json!({"family": fam, "level": d, "steps": steps, "linear_bound": bound, "first_levels": series.iter().take(6).collect::<Vec<_>>(), "expression_bytes": text.len(),
+                       "expression_head": text.chars().take(160).collect::<String>()}),
+            );
+            return false;
+        }
+        true
+    };
+    for fam in GROWTH_FAMILIES.iter() {
+        let mut interp: Vec<(usize, u64)> = vec![];
+        let mut parse: Vec<(usize, u64)> = vec![];
+        for d in 1..=40usize {
+            let text = growth_family(fam, d).expect("family");
+            rep.evaluations += 1;
+            jmespath::verif::reset();
+            let c = guarded(|| jmespath::compile(&text));
+            let psteps = jmespath::verif::counters().parse_steps;
+            let e = match c {
+                Ok(Ok(e)) => e,
+                other => {
+                    rep.violation("C05/growth-family-does-not-compile", json!({"family": fam, "level": d, "got": format!("{:?}", other.map(|r| r.map(|_| ()).map_err(|e| e.to_string())))}));
+                    break;
+                }
+            };
+            if !check(rep, fam, "parse", &parse, d, psteps, &text) {
+                break;
+            }
+            parse.push((d, psteps));
+            jmespath::verif::reset();
+            let r = guarded(|| e.search(&doc).map(|v| v.to_string()));
+            let isteps = jmespath::verif::counters().interp_steps;
+            if let Err(p) = r {
+                rep.violation(&format!("C05/panic-in-search/{}", panic_site(&p)), json!({"family": fam, "level": d, "panic": p}));
+                break;
+            }
+            if !check(rep, fam, "evaluation", &interp, d, isteps, &text) {
+                break;
+            }
+            interp.push((d, isteps));
+            rep.nontrivial(refimpl::rng::fnv(format!("growth|{}|{}", fam, d).as_bytes()));
+        }
+        rep.extra.insert(format!("growth/{}", fam), json!({"levels": interp.len(), "evaluation_steps_first_last": [interp.first(), interp.last()], "parse_steps_first_last": [parse.first(), parse.last()]}));
+    }
+    // the plain depth families, parser only (their evaluation is covered by c05depth)
+    for fam in DEPTH_FAMILIES.iter() {
+        let mut parse: Vec<(usize, u64)> = vec![];
+        for d in (2..=60usize).step_by(2) {
+            let text = depth_family(fam, d).expect("family");
+            rep.evaluations += 1;
+            jmespath::verif::reset();
+            let _ = guarded(|| jmespath::compile(&text).map(|_| ()));
+            let psteps = jmespath::verif::counters().parse_steps;
+            if !check(rep, fam, "parse", &parse, d, psteps, &text) {
+                break;
+            }
+            parse.push((d, psteps));
+        }
+    }
+}
+
 pub fn run(args: &Args) {
     let mut rep = Report::new("C05");
     let docs = hostile_docs();
@@ -290,6 +418,12 @@ pub fn run(args: &Args) {
         }
     };
 
+    // (0) work grows with the expression, not exponentially in its nesting
+    if args.shard == 0 && !skip.contains(&30_000_000_000) {
+        mark("B", 30_000_000_000);
+        growth_monitor(&mut rep);
+        mark("E", 30_000_000_000);
+    }
     // (1) exhaustive numeric-edge slices: start/stop/step over the edge set x array lengths
     let edge = EDGE;
     let lens = [0usize, 1, 2, 3, 10];
